@@ -9,10 +9,13 @@
    gives a witness (each witness is replayed on the real code by the check: corpus/C29).
    The end-to-end claim is only exercised: generated programs run by StreamFlow, by cwltool and by
    Sem.run_wf inside Coq, outputs compared (harness/props/c29.py).
-   Not stated at all: C29_scatter_network (the scatter -> combinator -> execute -> gather token network
-   computes the spec's array under every schedule) — it needs the C01/C02 step models; see the notes. *)
+   C29_scatter_network_dot_partial composes the proved step models of C01 (Gather/) and C02 (Comb/): the
+   token network built for a dotproduct scatter computes the spec's array under every arrival order.
+   flat/nested crossproduct networks are not stated (see the notes). *)
 From Coq Require Import List Bool NArith ZArith.
+From Coq Require Import Permutation.
 From SF Require Import Base.Str Tags.Model Cwl.Sem Cwl.Ops Cwl.Proofs.
+From SF Require Gather.Model Comb.Model Comb.Proofs Comb.Flat Cwl.Network.
 Import ListNotations.
 Local Open Scope string_scope. Local Open Scope list_scope.
 
@@ -148,6 +151,60 @@ Proof.
   exists [LTok "0" []], (fun _ => VNull). vm_compute. repeat split. discriminate.
 Qed.
 
+(* ---- the scatter network (compiler-correctness core), dotproduct over n >= 1 inputs ------------------
+   [items] are the scattered ports, [cols] the arrays (as payload ids) delivered to the n ScatterSteps with tag
+   [t]; Network.scols lists what the ScatterSteps emit (element i of every array tagged t.i: C01_scatter);
+   [arr] is ANY order in which these tokens reach the DotProductCombinator (Comb.Model.run, C02's model);
+   every emitted combination is turned by the job into a token tagged get_tag(inputs) carrying
+   jobp(ids in port order) (Network.exec); these tokens and the size token reach the GatherStep (Gather.Model,
+   C01's model) in ANY legal order.  Then: the combinator raises nothing, and the gather emits exactly one
+   list, tagged t, whose i-th element is jobp of the i-th row of the SPECIFICATION's dotproduct (Sem.dot cols),
+   tagged t.i.  PARTIAL: equal lengths only (Sem.dot = Some; for unequal lengths see
+   C29_empty_scatter_dot_refuted and DotProductSizeTransformer, not modelled), the job is a pure function of
+   the combination, `when`/valueFrom/defaults inside the scattered step and the non-scattered inputs
+   (broadcast through the residual combinator: C02_dot_broadcast_partial) are outside this statement;
+   flat_crossproduct / nested_crossproduct networks are not stated. *)
+Theorem C29_scatter_network_dot_partial :
+  forall (items : list string) (t : tag) (jobp : list N -> string),
+  NoDup items -> items <> [] -> t <> [] ->
+  forall (cols rows : list (list N)) (arr : list Comb.Flat.arv) (l1 l2 : list Gather.Model.garr) p1 p2,
+  length cols = length items ->
+  dot cols = Some rows ->
+  Permutation arr (Network.scols t 0 items cols) ->
+  let res := Comb.Model.run (Comb.Proofs.c1 items) Comb.Model.init_state arr in
+  Permutation (l1 ++ l2)
+    (Gather.Model.OnSize (render t) (N.of_nat (length rows))
+     :: map Gather.Model.OnElem (map (Network.exec items jobp) (concat (fst res)))) ->
+  p1 <> p2 -> (forall a, In a l2 -> Gather.Model.port_of a <> p1) ->
+  let s := Gather.Model.gather_run 1
+             (l1 ++ Gather.Model.OnTerm p1 Gather.Model.Completed
+                 :: l2 ++ [Gather.Model.OnTerm p2 Gather.Model.Completed]) in
+  snd res = None /\
+  Gather.Model.gout (Gather.Model.gd s) = [Gather.Model.ListTok (render t) (Network.eres t jobp 0 rows)] /\
+  Gather.Model.gfinal s = Some Gather.Model.Completed /\
+  map (fun x => match x with Gather.Model.Tok _ v => v | Gather.Model.ListTok _ _ => "" end)
+      (Network.eres t jobp 0 rows) = map jobp rows.
+Proof. exact Network.scatter_network_dot_spec. Qed.
+
+(* two ports, 12 elements (indices 10, 11 after 9), every token arriving in reverse order at both steps *)
+Example C29_scatter_network_example :
+  let items := ["a"; "b"] in
+  let cols := [[1; 2; 3; 4; 5; 6; 7; 8; 9; 10; 11; 12]; [101; 102; 103; 104; 105; 106; 107; 108; 109; 110; 111; 112]]%N in
+  let jobp := fun r : list N => match r with [x; y] => Base.Dec.dec (x + y) | _ => "?" end in
+  let arr := rev (Network.scols [0%N] 0 items cols) in
+  let res := Comb.Model.run (Comb.Proofs.c1 items) Comb.Model.init_state arr in
+  let outs := map (Network.exec items jobp) (concat (fst res)) in
+  let s := Gather.Model.gather_run 1
+             (map Gather.Model.OnElem (rev outs) ++
+              [Gather.Model.OnTerm Gather.Model.ElemP Gather.Model.Completed; Gather.Model.OnSize "0" 12;
+               Gather.Model.OnTerm Gather.Model.SizeP Gather.Model.Completed]) in
+  dot cols <> None /\ snd res = None /\
+  map (fun x => match x with Gather.Model.Tok g v => (g, v) | _ => ("", "") end)
+      (match Gather.Model.gout (Gather.Model.gd s) with [Gather.Model.ListTok _ l] => l | _ => [] end)
+  = [("0.0", "102"); ("0.1", "104"); ("0.2", "106"); ("0.3", "108"); ("0.4", "110"); ("0.5", "112");
+     ("0.6", "114"); ("0.7", "116"); ("0.8", "118"); ("0.9", "120"); ("0.10", "122"); ("0.11", "124")].
+Proof. vm_compute. repeat split; try reflexivity; discriminate. Qed.
+
 Print Assumptions C29_merge_nested.
 Print Assumptions C29_merge_nested_single_scalar.
 Print Assumptions C29_merge_nested_single_list_refuted.
@@ -163,3 +220,4 @@ Print Assumptions C29_empty_scatter.
 Print Assumptions C29_empty_scatter_dot_partial.
 Print Assumptions C29_empty_scatter_dot_refuted.
 Print Assumptions C29_empty_scatter_nested_refuted.
+Print Assumptions C29_scatter_network_dot_partial.
